@@ -36,8 +36,7 @@ var wzAliases = [...]*Basic{
 	{Byte, IsInteger | IsUnsigned, token.K_字节},
 	{Rune, IsInteger, token.K_符文},
 
-	{Int8, IsInteger, token.K_微整型},
-	{Int16, IsInteger, token.K_短整型},
+	// 微整型(i8) 和 短整型(i16) 后端尚未支持: 和英文语法一样不对用户可见
 	{Int32, IsInteger, token.K_普整型},
 	{Int64, IsInteger, token.K_长整型},
 	{Int, IsInteger, token.K_整型},
